@@ -49,6 +49,16 @@ Example C16_nonvacuous :
   exists cs lens, guts_feed p (guts_new 5) [[1;2;3]; repeat 7 100; [9]] [] = Ok (cs, lens) /\ lens = [3; 103; 104].
 Proof. vm_compute. eauto. Qed.
 
+(* the functions of the modelled source are exactly the functions the model was written against
+   (gen/GenApi.v is regenerated from /repo on every run; see Model/ApiSurface.v) *)
+From V Require gen.GenApi Model.ApiSurface.
+Theorem C16_api_traits : GenApi.api_traits = ApiSurface.expected_traits.
+Proof. reflexivity. Qed.
+Theorem C16_api_guts : GenApi.api_guts = ApiSurface.expected_guts.
+Proof. reflexivity. Qed.
+
+Print Assumptions C16_api_traits.
+Print Assumptions C16_api_guts.
 Print Assumptions C16_trait_update.
 Print Assumptions C16_trait_reset.
 Print Assumptions C16_trait_finalize.
